@@ -82,7 +82,11 @@ def SupEv.isTerminal : SupEv → Bool
 def SupEv.who : SupEv → Nat
   | .started c => c | .terminated c _ _ => c | .failed c _ _ => c
 
-inductive Fx | sendSelf (m : Nat) | stopSelf (r : Option String) | killSelf
+inductive Fx
+  | sendSelf (m : Nat) | stopSelf (r : Option String) | killSelf
+  | joinGroup (g : String)        -- `pg::join(g, [myself])`
+  | reply (k v : Nat)             -- reply `v` on the held reply port of call `k`
+  | forget (k : Nat)              -- drop the held reply port of call `k`
   deriving DecidableEq, Repr, Inhabited
 
 inductive Term | tick | ok | err (n : Nat) | panic (n : Nat)
@@ -94,7 +98,7 @@ structure Seg where
   deriving DecidableEq, Repr, Inhabited
 
 /-- Items of the message port (`MuxedMessage`). -/
-inductive Item | msg (m : Nat) | drain
+inductive Item | msg (m : Nat) | drain | call (k : Nat)   -- `call k`: an RPC request carrying reply port `k`
   deriving DecidableEq, Repr, Inhabited
 
 /-- Where the actor's control flow is suspended. -/
@@ -120,13 +124,30 @@ def Phase.isTask : Phase → Bool
   | .ready | .postStart | .idle | .inMsg | .inSup | .postStop _ => true
   | _ => false
 
-inductive Arg | none | msg (m : Nat) | sup (e : SupEv)
+inductive Arg | none | msg (m : Nat) | sup (e : SupEv) | call (k : Nat)
   deriving DecidableEq, Repr, Inhabited
 
-inductive SpawnRet | ok | killed | nolink | startup (isPanic : Bool) (n : Nat)
+inductive SpawnRet | ok | killed | nolink | startup (isPanic : Bool) (n : Nat) | registered
   deriving DecidableEq, Repr, Inhabited
 
 inductive JoinRes | ok | cancelled | panic   -- `panic` is never produced by the model
+  deriving DecidableEq, Repr, Inhabited
+
+/-- What a caller sees of call `k` / the fate of its reply port. -/
+inductive CallRes | pending | success (v : Nat) | senderError | sendErr
+  deriving DecidableEq, Repr, Inhabited
+
+/-- Fate of a reply port addressed to this actor. -/
+inductive Fate | queued | held | replied (v : Nat) | dropped
+  deriving DecidableEq, Repr, Inhabited
+
+/-- What the outside can observe of an actor after an op. -/
+structure Snap where
+  status : Status
+  sup : Option Nat
+  inKids : Bool      -- it is in some actor's child set
+  nameHeld : Bool    -- the registry maps its name to it
+  ngroups : Nat      -- number of process groups it is a member of
   deriving DecidableEq, Repr, Inhabited
 
 /-- The per-actor trace alphabet: everything the harness observes about one actor. -/
@@ -146,6 +167,12 @@ inductive Ev
   | aborted                        -- `JoinHandle::abort` hit the live task
   | dropped                        -- the spawn future was dropped while alive
   | join (r : JoinRes)
+  | fxJoin (g : String)            -- the callback called `pg::join`
+  | fxReply (k v : Nat) (ok : Bool)   -- the callback replied on port `k` (`ok`: it held the port)
+  | fxForget (k : Nat) (ok : Bool)
+  | callRet (k : Nat) (r : CallRes)   -- what the caller of call `k` (addressed to this actor) sees
+  | waitRet (w : Nat) (ready : Bool)  -- a `wait()` on this actor was polled
+  | snap (s : Snap)                -- observable state after the op
   deriving DecidableEq, Repr, Inhabited
 
 /-- Effects on other actors (interpreted by `World`). -/
@@ -184,6 +211,12 @@ structure Actor where
   /-- `SupervisionTree`: my supervisor, my child set (`none` = permanently closed) -/
   sup : Option Nat := none
   kids : Option (List Nat) := some []
+  /-- registry: my name, and whether the registry maps it to me; process groups I am a member of -/
+  name : Option String := none
+  nameHeld : Bool := false
+  groups : List String := []
+  /-- reply ports of calls addressed to me -/
+  calls : List (Nat × Fate) := []
   /-- wake-up bookkeeping of the loop task (`TaskCtl::runnable`) -/
   woken : Bool := false
   sigW : Bool := false
@@ -201,7 +234,18 @@ def Actor.portsOpen (a : Actor) : Bool :=
   | .fresh | .done => false
   | _ => true
 
-def Actor.setStatus (a : Actor) (s : Status) : Actor := { a with status := a.status.max s }
+/-- `ActorCell::set_status` = `fetch_max`; the first transition to `>= Stopping` unregisters the name
+and leaves all process groups. -/
+def Actor.setStatus (a : Actor) (s : Status) : Actor :=
+  { a with status := a.status.max s,
+           nameHeld := a.nameHeld && decide ((a.status.max s).rank < Status.stopping.rank),
+           groups := if (a.status.max s).rank < Status.stopping.rank then a.groups else [] }
+
+def setFate (l : List (Nat × Fate)) (k : Nat) (f : Fate) : List (Nat × Fate) :=
+  l.map fun p => if p.1 = k then (k, f) else p
+
+def fateOf (l : List (Nat × Fate)) (k : Nat) : Option Fate :=
+  (l.find? (·.1 = k)).map (·.2)
 
 /-- Result of a step: new state and outputs in the order they happened. -/
 abbrev M := Actor × List Out
@@ -218,6 +262,15 @@ def apiSend (a : Actor) (m : Nat) : Actor × Bool :=
   else if a.admClosed then (a, false)
   else if !a.portsOpen then (a, false)
   else ({ a with msgQ := a.msgQ ++ [.msg m], woken := a.woken || a.msgW, msgW := false }, true)
+
+/-- `call`: like `send`, the message carries reply port `k`; `sendErr` hands the message (and the
+port) back to the caller. -/
+def apiCall (a : Actor) (k : Nat) : Actor × Bool :=
+  if Status.draining.rank ≤ a.status.rank then (a, false)
+  else if a.admClosed then (a, false)
+  else if !a.portsOpen then (a, false)
+  else ({ a with msgQ := a.msgQ ++ [.call k], calls := a.calls ++ [(k, .queued)],
+                 woken := a.woken || a.msgW, msgW := false }, true)
 
 /-- `send_stop`: takes the sender out of the cell, `oneshot::Sender::send`. -/
 def apiStop (a : Actor) (r : Reason) : Actor × Bool :=
@@ -244,7 +297,8 @@ def apiDrain (a : Actor) : Actor × Bool :=
 
 /-- `ActorPortSet::drop`: close and flush all four ports. -/
 def Actor.dropPorts (a : Actor) : Actor :=
-  { a with phase := .done, sigVal := false, stopVal := none, supQ := [], msgQ := [] }
+  { a with phase := .done, sigVal := false, stopVal := none, supQ := [], msgQ := [],
+           calls := a.calls.map fun p => if p.2 = .queued then (p.1, .dropped) else p }
 
 /-- `handle_signal`: `terminate()` — the self-kill is a no-op (the sender is gone), the child set is
 taken and closed, the children are killed. -/
@@ -309,6 +363,8 @@ def listen (a : Actor) : M :=
         let a : Actor := { a with supW := true }
         match a.msgQ with
         | .msg m :: q => ({ a with msgQ := q, phase := .inMsg, gateW := true }, [.ev (.enter .handle (.msg m))])
+        | .call k :: q => ({ a with msgQ := q, phase := .inMsg, gateW := true, calls := setFate a.calls k .held },
+                           [.ev (.enter .handle (.call k))])
         | .drain :: q => enterPostStop { a with msgQ := q } .drained
         | [] => ({ a with msgW := true, phase := .idle }, [])
 
@@ -351,6 +407,16 @@ def runFx (a : Actor) : Fx → M
   | .sendSelf m => ((apiSend a m).1, [.ev (.sendRet true m (apiSend a m).2)])
   | .stopSelf r => ((apiStop a (.ofUser r)).1, [.ev (.stopRet true (.ofUser r) (apiStop a (.ofUser r)).2)])
   | .killSelf => ((apiKill a).1, [.ev (.killRet true (apiKill a).2)])
+  | .joinGroup g =>
+    -- `pg::join` filters actors whose status is `> Draining`
+    (if a.status.rank ≤ Status.draining.rank && !a.groups.contains g then { a with groups := a.groups ++ [g] } else a,
+     [.ev (.fxJoin g)])
+  | .reply k v =>
+    if fateOf a.calls k = some .held then ({ a with calls := setFate a.calls k (.replied v) }, [.ev (.fxReply k v true)])
+    else (a, [.ev (.fxReply k v false)])
+  | .forget k =>
+    if fateOf a.calls k = some .held then ({ a with calls := setFate a.calls k .dropped }, [.ev (.fxForget k true)])
+    else (a, [.ev (.fxForget k false)])
 
 def runFxs (a : Actor) : List Fx → M
   | [] => (a, [])
@@ -370,7 +436,7 @@ def runSeg (a : Actor) (cb : Cb) (s : Seg) (k : Actor → Res → M) : M :=
 /-! ### The ops -/
 
 inductive AOp
-  | spawn (sup : Option Nat)
+  | spawn (sup : Option Nat) (name : Option String) (nameFree : Bool)   -- nameFree: the registry has no such name
   | pollSpawn (supOk : Bool)
   | dropSpawn
   | poll
@@ -384,14 +450,20 @@ inductive AOp
   | treeTaken                    -- environment: my supervisor's `terminate()` reached me
   | kidAdd (c : Nat)             -- environment: `c` linked itself to me
   | kidDel (c : Nat)             -- environment: `c` unlinked itself
+  | call (k : Nat)               -- `actor.call(..)` first poll: the request is sent
+  | pollCall (k : Nat)           -- the caller polls its call future
+  | pollWait (w : Nat)           -- somebody polls a `wait()` on this actor
   deriving DecidableEq, Repr, Inhabited
 
 /-- `spawn`/`spawn_linked`: `new()` (cell, ports, armed guard), `start()` up to the first
 suspension inside `pre_start`. -/
-def opSpawn (a : Actor) (sup : Option Nat) : M :=
+def opSpawn (a : Actor) (sup : Option Nat) (name : Option String) (nameFree : Bool) : M :=
   match a.phase with
-  | .fresh => ({ a with phase := .pre, status := .starting, armed := true, wantSup := sup },
-               [.ev (.enter .preStart .none)])
+  | .fresh =>
+    if name.isSome && !nameFree then (a, [.ev (.spawnRet .registered)])   -- `ActorCell::new` fails: no cell
+    else ({ a with phase := .pre, status := .starting, armed := true, wantSup := sup,
+                   name := name, nameHeld := name.isSome },
+          [.ev (.enter .preStart .none)])
   | _ => (a, [.note "respawn"])
 
 def opPollSpawn (a : Actor) (supOk : Bool) : M :=
@@ -483,10 +555,18 @@ def Actor.envOp (a : Actor) : AOp → M
   | .treeTaken => opTreeTaken a
   | .kidAdd c => ({ a with kids := a.kids.map (fun l => if l.contains c then l else l ++ [c]) }, [])
   | .kidDel c => ({ a with kids := a.kids.map (fun l => l.filter (· != c)) }, [])
+  | .call k => ((apiCall a k).1, [.ev (.callRet k (if (apiCall a k).2 then .pending else .sendErr))])
+  | .pollCall k =>
+    match fateOf a.calls k with
+    | some (.replied v) => ({ a with calls := a.calls.filter (·.1 != k) }, [.ev (.callRet k (.success v))])
+    | some .dropped => ({ a with calls := a.calls.filter (·.1 != k) }, [.ev (.callRet k .senderError)])
+    | some _ => (a, [.ev (.callRet k .pending)])
+    | none => (a, [.note "nocall"])
+  | .pollWait w => (a, [.ev (.waitRet w (a.status = .stopped))])
   | _ => (a, [])
 
 def Actor.stepCore (a : Actor) : AOp → M
-  | .spawn sup => opSpawn a sup
+  | .spawn sup name nameFree => opSpawn a sup name nameFree
   | .pollSpawn supOk => opPollSpawn a supOk
   | .dropSpawn => opDropSpawn a
   | .poll => opPoll a
@@ -495,9 +575,13 @@ def Actor.stepCore (a : Actor) : AOp → M
   | op => if a.phase = .fresh then (a, [.note "nocell"]) else a.envOp op   -- no cell, nothing to call
 
 /-- The transition function: `stepCore`, then the observed-supervisor event if it changed. -/
+def Actor.snap (a : Actor) : Snap :=
+  { status := a.status, sup := a.sup, inKids := a.sup.isSome, nameHeld := a.nameHeld, ngroups := a.groups.length }
+
 def Actor.step (a : Actor) (op : AOp) : M :=
   let r := a.stepCore op
-  (r.1, r.2 ++ (if r.1.sup = a.sup then [] else [.ev (.supIs r.1.sup)]))
+  (r.1, r.2 ++ (if r.1.sup = a.sup then [] else [.ev (.supIs r.1.sup)])
+            ++ (if r.1.phase = .fresh then [] else [.ev (.snap r.1.snap)]))
 
 def evs : List Out → List Ev
   | [] => []
@@ -514,10 +598,21 @@ def Actor.run (a : Actor) : List AOp → Actor × List Ev
 
 def trace (id : Nat) (ops : List AOp) : List Ev := ((Actor.init id).run ops).2
 
+def Ev.isSnap : Ev → Bool
+  | .snap _ => true
+  | _ => false
+
+/-- The trace without the per-op observable snapshots (for readable examples). -/
+def traceNoSnap (id : Nat) (ops : List AOp) : List Ev := (trace id ops).filter (fun e => !e.isSnap)
+
 /-! ### World: several actors, effects routed through `Actor.step` -/
 
 structure World where
   actors : List Actor := []
+  /-- pending `wait()` futures: (w, target) -/
+  waits : List (Nat × Nat) := []
+  /-- pending call futures: (k, callee) -/
+  callers : List (Nat × Nat) := []
   deriving Repr, Inhabited
 
 /-- Outputs tagged with the actor that produced them. -/
@@ -568,7 +663,7 @@ end
 
 inductive Op
   | case
-  | spawn (a : Nat) (sup : Option Nat)
+  | spawn (a : Nat) (sup : Option Nat) (name : Option String)
   | pollSpawn (a : Nat)
   | dropSpawn (a : Nat)
   | poll (a : Nat)
@@ -578,7 +673,17 @@ inductive Op
   | stop (a : Nat) (r : Option String)
   | kill (a : Nat)
   | drain (a : Nat)
+  | wait (w : Nat) (a : Nat)
+  | pollWait (w : Nat)
+  | call (k : Nat) (a : Nat)
+  | pollCall (k : Nat)
   deriving DecidableEq, Repr, Inhabited
+
+/-- The registry has no entry for `n`. -/
+def World.nameFree (w : World) (n : Option String) : Bool :=
+  match n with
+  | none => true
+  | some n => !w.actors.any fun a => a.nameHeld && a.name == some n
 
 /-- `SupervisionTree::link` preconditions on the supervisor's side. -/
 def World.supOk (w : World) (a : Nat) : Bool :=
@@ -586,31 +691,52 @@ def World.supOk (w : World) (a : Nat) : Bool :=
   | some p => decide ((w.get p).status.rank < Status.draining.rank) && (w.get p).kids.isSome
   | none => true
 
-def Op.target : Op → Option (Nat × (World → AOp))
+def Op.target (w : World) : Op → Option (Nat × AOp)
   | .case => none
-  | .spawn a sup => some (a, fun _ => .spawn sup)
-  | .pollSpawn a => some (a, fun w => .pollSpawn (w.supOk a))
-  | .dropSpawn a => some (a, fun _ => .dropSpawn)
-  | .poll a => some (a, fun _ => .poll)
-  | .abort a => some (a, fun _ => .abort)
-  | .resume a s => some (a, fun _ => .resume s)
-  | .send a m => some (a, fun _ => .send m)
-  | .stop a r => some (a, fun _ => .stop r)
-  | .kill a => some (a, fun _ => .kill)
-  | .drain a => some (a, fun _ => .drain)
+  | .spawn a sup name => some (a, .spawn sup name (w.nameFree name))
+  | .pollSpawn a => some (a, .pollSpawn (w.supOk a))
+  | .dropSpawn a => some (a, .dropSpawn)
+  | .poll a => some (a, .poll)
+  | .abort a => some (a, .abort)
+  | .resume a s => some (a, .resume s)
+  | .send a m => some (a, .send m)
+  | .stop a r => some (a, .stop r)
+  | .kill a => some (a, .kill)
+  | .drain a => some (a, .drain)
+  | .wait wid a => some (a, .pollWait wid)
+  | .pollWait wid => (w.waits.find? (·.1 = wid)).map fun p => (p.2, .pollWait wid)
+  | .call k a => some (a, .call k)
+  | .pollCall k => (w.callers.find? (·.1 = k)).map fun p => (p.2, .pollCall k)
+
+/-- Bookkeeping of the harness-side futures (pending waits and calls). -/
+def World.tables (w : World) (op : Op) (outs : List WOut) : World :=
+  match op with
+  | .wait wid a =>
+    if outs.any (fun o => o.2 == .ev (.waitRet wid false)) then { w with waits := w.waits ++ [(wid, a)] } else w
+  | .pollWait wid =>
+    if outs.any (fun o => o.2 == .ev (.waitRet wid true)) then { w with waits := w.waits.filter (·.1 != wid) } else w
+  | .call k a =>
+    if outs.any (fun o => o.2 == .ev (.callRet k .pending)) then { w with callers := w.callers ++ [(k, a)] } else w
+  | .pollCall k =>
+    if outs.any (fun o => o.2 == .ev (.callRet k .pending)) then w else { w with callers := w.callers.filter (·.1 != k) }
+  | _ => w
 
 /-- One harness op: the target actor's own outputs (rendered and compared with the
 implementation's notes) and the outputs of the other actors caused by its effects. -/
 def World.step (w : World) (op : Op) : World × List WOut × List WOut :=
-  match op.target with
-  | none => ({}, [], [])
-  | some (a, f) =>
-    -- a `spawn` of the next fresh index creates the slot
-    let w : World := if a = w.actors.length then { w with actors := w.actors ++ [Actor.init a] } else w
-    let r := w.apply a (f w)
-    let fuel := 4 * (w.actors.length + 1) * (r.2.length + 1) + 8
-    let r' := World.effects fuel r.1 r.2
-    (r'.1, r.2, r'.2)
+  match op with
+  | .case => ({}, [], [])
+  | _ =>
+    match op.target w with
+    | none =>
+      (w, [(0, .note (match op with | .pollWait _ => "nowait" | .pollCall _ => "nocall" | _ => "bad-op"))], [])
+    | some (a, aop) =>
+      -- a `spawn` of the next fresh index creates the slot
+      let w : World := if a = w.actors.length then { w with actors := w.actors ++ [Actor.init a] } else w
+      let r := w.apply a aop
+      let fuel := 4 * (w.actors.length + 1) * (r.2.length + 1) + 8
+      let r' := World.effects fuel r.1 r.2
+      (r'.1.tables op r.2, r.2, r'.2)
 
 /-! ### Source-derived tables the model depends on (tied to `Extracted` in `Props/`) -/
 
@@ -827,5 +953,54 @@ def next (me : Nat) (s : St) : Ev → Except String St
 def ok (me : Nat) (tr : List Ev) : Bool := (accepts (next me) {} tr).isOk
 
 end C04
+
+namespace Residue
+
+structure St where
+  /-- the spawn of this actor did not produce a running actor -/
+  failed : Bool := false
+  deriving DecidableEq, Repr, Inhabited
+
+/-- Nothing is left of the actor. -/
+def clean (sn : Snap) : Except String Unit :=
+  if sn.status ≠ .stopped then .error "residue.status-not-stopped"
+  else if sn.sup.isSome then .error "residue.supervisor-left"
+  else if sn.inKids then .error "residue.in-child-set"
+  else if sn.nameHeld then .error "residue.name-held"
+  else if sn.ngroups ≠ 0 then .error "residue.group-member"
+  else .ok ()
+
+/-- After a spawn that failed (`pre_start` Err / panic, kill during start-up, refused link) or
+whose future was dropped: no callback activity, no supervision event, every observable snapshot is
+clean, sends are refused, waiters are released, calls queued to it are resolved.
+(A name clash — `spawnRet registered` — creates no actor at all; it is judged by the frame clause
+of the driver.) This automaton is an extra run-time oracle of the `Life` driver
+(model name `life-residue`); C08 itself is decided by a separate check. -/
+def next (s : St) : Ev → Except String St
+  | .spawnRet r =>
+    match r with
+    | .ok => if s.failed then .error "residue.spawn-ok-after-failure" else .ok s
+    | .registered => .ok s
+    | _ => .ok { s with failed := true }
+  | .dropped => .ok { s with failed := true }
+  | .enter _ _ => if s.failed then .error "residue.callback-after-failed-spawn" else .ok s
+  | .tick _ => if s.failed then .error "residue.callback-after-failed-spawn" else .ok s
+  | .exit _ _ => if s.failed then .error "residue.callback-after-failed-spawn" else .ok s
+  | .emit _ _ => if s.failed then .error "residue.supervision-event" else .ok s
+  | .snap sn =>
+    if s.failed then
+      match clean sn with
+      | .ok () => .ok s
+      | .error c => .error c
+    else .ok s
+  | .sendRet _ _ true => if s.failed then .error "residue.send-accepted" else .ok s
+  | .callRet _ .pending => if s.failed then .error "residue.call-not-resolved" else .ok s
+  | .callRet _ (.success _) => if s.failed then .error "residue.call-answered" else .ok s
+  | .waitRet _ false => if s.failed then .error "residue.waiter-not-released" else .ok s
+  | _ => .ok s
+
+def ok (tr : List Ev) : Bool := (accepts next {} tr).isOk
+
+end Residue
 
 end Life
